@@ -269,6 +269,15 @@ for _g, _gd, _fn in (("pawn_capture", "ordinary pawn captures (incl. capture-pro
         K(_id, ["C01", "C06", "C07", "C19"], MG + "gen_%s_%s" % (_g, _c), _fn + ["movegen::MoveGenImpl::add_move"],
           "for all well-formed boards (side %s, <= 16 men, no back-rank pawns, consistent mark) and an arbitrary witness move w: the generator pushes w exactly once iff w is one of the pseudo-legal %s" % (_c, _gd),
           assumes=ATT + ["C15/pawns/advances", "C15/castling/masks"], timeout=3000, mem_gb=16)
+EXITS = []
+for _g in ("knight", "king", "bishop", "rook", "queen", "pawn_simple", "pawn_capture", "pawn_enpassant"):
+    for _c in ("w", "b"):
+        _id = "C07/gen-exit/%s/%s" % (_g.replace("_", "-"), _c)
+        EXITS.append(_id)
+        K(_id, ["C07", "C19"], MG + "exit_%s_%s" % (_g, _c), ["movegen::MoveGenImpl (sub-generator %s)" % _g],
+          "for all well-formed boards (side %s, <= 16 men, no back-rank pawns, consistent mark) and an arbitrary witness move w refused by the sink: the sub-generator returns Err iff w is one of the moves it generates, and pushes nothing after the refusal (so with any sink it stops at, and reports, the first refused move - has_legal_moves)" % _c,
+          assumes=TABLES, timeout=3600, mem_gb=20)
+
 K("C07/legal-filter", ["C07", "C01", "C09"], MG + "c07_legal_filter_forwards_iff_is_legal", ["movegen::LegalFilter::new", "movegen::LegalFilter::push", "movegen::ErrOnFirst::push"],
   "for all boards with one king each and any move: LegalFilter::push forwards the move to the inner sink exactly when Checker<DefaultPrechecker>::is_legal holds and returns the inner sink's answer; ErrOnFirst refuses every push",
   assumes=["C01/legal/is-legal/%s/%s" % (_k, _c) for _s, _k in KINDS for _c in ("w", "b")])
@@ -373,6 +382,10 @@ for _o in OBS:
         _o["props"].append("C19")
 OBS.append(dict(id="C19/unsafe-site-map", props=["C19"], backend="scan", fns=[], tier="quick", assumes=sorted(_cov), timeout=60,
                 stmt="every `unsafe` site of the working tree (scan of chess/src and chess_base/src) is listed in lib/unsafe_map.py with the obligations that execute it under Kani's pointer / bounds / intrinsic-precondition / unreachable checks for all inputs satisfying the invariant, or that prove the callee's precondition (Verus); a new or moved site makes this obligation undecided; sites justified only by an assumption (A-CAP, public unsafe fns) are reported as assumptions"))
+
+V("C09/check-marks/verus", ["C09"], "san.vspec", ["san::Move::from_move"],
+  "san::Move::from_move: Ok iff the move is legal; the data part is Data::from_move; the check mark is '+' iff the position after the move is check and the opponent has a legal move, '#' iff it is check and there is none, none otherwise",
+  assumes=["C16/check-queries", "C07/legal-filter", "C01/gen/dispatch", "C09/from-move/simple", "C09/from-move/pawns-castling"] + ["C02/make-move/%s/%s" % (_k, _c) for _s, _k in KINDS for _c in ("w", "b")])
 
 
 def by_id():
